@@ -30,7 +30,7 @@ def one() -> None:
 if sys.argv[1:2] == ["--one"]:
     one()
     sys.exit(0)
-ids = sys.argv[1:] or [os.path.basename(d) for d in sorted(glob.glob("/verif/seeded/*-[ab]"))]
+ids = sys.argv[1:] or [os.path.basename(d) for d in sorted(glob.glob("/verif/seeded/*-[a-z]"))]
 assert subprocess.run(["git", "-C", "/repo", "status", "--short"], capture_output=True, text=True).stdout.strip() == "", "/repo dirty"
 path = "/verif/seeded/PROOF_STATUS.json"
 out = json.load(open(path)) if os.path.exists(path) and sys.argv[1:] else {}
